@@ -8,6 +8,8 @@ import (
 	"cosmossdk.io/math"
 	sdk "github.com/cosmos/cosmos-sdk/types"
 
+	ophosttypes "github.com/initia-labs/OPinit/x/ophost/types"
+
 	"verifharness/mon"
 	"verifharness/ref"
 	"verifharness/sim"
@@ -244,6 +246,66 @@ func (c *c04) amountLattice() {
 	}
 }
 
+// bigEscrow: the escrow of one denom accumulates beyond 2^64 through several deposits (each below 2^64), withdrawals
+// are made in pieces and every piece is claimed while the escrow is still above 2^64.
+func (c *c04) bigEscrow() {
+	run := c.run
+	tc := newTwoChain(5*time.Second, L2EnvOpts{})
+	whale := tc.L1.Users[0]
+	part := pow2(63)
+	tc.L1.L1.Fund(whale.Addr, sdk.NewCoin("uinit", part.MulRaw(8)))
+	l2user := tc.L2.Users[0]
+	for i := 0; i < 5; i++ {
+		if r := tc.L1Deposit(whale, l2user.String(), "uinit", part, nil); r.Class != sim.OK {
+			run.Fail("C04.l1_deposit", "c04.big_escrow_deposit_rejected", nil, "deposit of 2^63 rejected: %s", r.ErrString())
+			return
+		}
+		if rr, _ := tc.RelayNext(); rr.Class != sim.OK {
+			run.Fail("C04.accepted_deposit_is_relayable", "c04.relay_failed", nil, "relay failed: %s", rr.ErrString())
+			return
+		}
+	}
+	for _, amt := range []math.Int{math.NewInt(12345), part, pow2(64).SubRaw(1), math.NewInt(1)} {
+		if r := tc.L2Withdraw(l2user, tc.L1.Users[3].String(), tc.L2.L2Denom("uinit"), amt); r.Class != sim.OK {
+			run.Fail("C04.l2_withdraw", "c04.l2_withdraw_failed", nil, "L2 withdrawal of %s within balance failed: %s", amt, r.ErrString())
+			return
+		}
+	}
+	run.Evaluations++
+	c.drain(tc, ref.PadLast, "escrow above 2^64", []string{"5 deposits of 2^63 (escrow 5*2^63), withdrawals of 12345, 2^63, 2^64-1, 1"})
+	run.Distinct("bigescrow")
+}
+
+// emptyRecipient: whatever L1 accepts as deposit recipient must be refundable.
+func (c *c04) emptyRecipient() {
+	run := c.run
+	for _, to := range []string{"", " ", "\x00"} {
+		for _, data := range [][]byte{nil, []byte("hook-only")} {
+			tc := newTwoChain(3*time.Second, L2EnvOpts{})
+			r := tc.L1Deposit(tc.L1.Users[2], to, "uinit", math.NewInt(777), data)
+			run.Evaluations++
+			if r.Class != sim.OK {
+				run.Distinct(fmt.Sprintf("emptyto/%q/%d/l1-rejected", to, len(data)))
+				continue
+			}
+			tr := []string{fmt.Sprintf("L1 accepted a deposit with recipient %q and %d payload bytes", to, len(data))}
+			if rr, _ := tc.RelayNext(); rr.Class != sim.OK {
+				run.Check("C04.accepted_deposit_is_relayable", false, "c04.relay_failed", tr, "L1 accepted the deposit but L2 cannot finalize it: %s", rr.ErrString())
+				continue
+			}
+			// if it was refunded, the refund must be claimable
+			for _, w := range tc.Recorded {
+				m := ophosttypes.NewMsgFinalizeTokenWithdrawal(tc.L1.Users[0].String(), 1, 1, w.Seq, nil, w.From, w.To, sdk.NewCoin(w.BaseDenom, w.Amount), []byte{0}, make([]byte, 32), make([]byte, 32))
+				if err := m.Validate(tc.L1.L1.AK.AddressCodec()); err != nil {
+					run.Check("C04.every_leaf_finalizes", false, "c04.refund_unclaimable", tr, "the refund of this deposit (from=%q to=%q) can never be finalized on L1: %v", w.From, w.To, err)
+				}
+			}
+			c.drain(tc, ref.PadLast, "refund of odd-recipient deposit", tr)
+			run.Distinct(fmt.Sprintf("emptyto/%q/%d/completed", to, len(data)))
+		}
+	}
+}
+
 func (c *c04) stringsWorkload(thorough bool) {
 	run := c.run
 	denoms := []string{"abc", "uinit", "ibc/27394FB092D2ECCD56123C74F36E4C1F926001CEADA9CA97EA622B25F41E5EB2", "move/" + strings.Repeat("ab", 30), "a" + strings.Repeat("x", 127), "evm/0xAbC.d_e-f:g"}
@@ -293,6 +355,8 @@ func checkC04(run *mon.Run, rng *mon.Rand, thorough bool) {
 		return
 	}
 	c.stringsWorkload(thorough)
+	c.bigEscrow()
+	c.emptyRecipient()
 	maxN := pick(thorough, 48, 96)
 	for n := 1; n <= maxN && !run.TooMany(); n++ {
 		for shape := 0; shape < 2; shape++ {
